@@ -197,6 +197,38 @@ func (e *specEnv) callExpr(n *ECall, hint types.Type) sv {
 		argn(1)
 		return sv{Val: Val{t: e.heldTerm(n.Fun, n.Args[0]), typ: tBool}}
 	}
+	switch n.Fun {
+	case "ncalls", "lastres", "lastarg":
+		// ghost call record of the function under verification (see trackedCall)
+		if len(n.Args) < 1 {
+			sfail("%s(Name...)", n.Fun)
+		}
+		id, ok := n.Args[0].(*EIdent)
+		if !ok {
+			sfail("%s needs a function name", n.Fun)
+		}
+		switch n.Fun {
+		case "ncalls":
+			k := u.regKey("Calls."+id.Name, "Int")
+			return sv{Val: Val{t: "(- " + e.st.get(u, k) + " " + e.old.get(u, k) + ")", typ: tInt}}
+		case "lastres":
+			k := u.regKey("Res."+id.Name, "Ifc")
+			return sv{Val: Val{t: e.st.get(u, k), typ: types.Universe.Lookup("error").Type()}}
+		default:
+			argn(2)
+			ii, ok := n.Args[1].(*EInt)
+			if !ok {
+				sfail("lastarg(Name, i)")
+			}
+			pfx := fmt.Sprintf("Arg.%s.%s.", id.Name, ii.Val)
+			for _, k := range sortedKeys(u.keySort) {
+				if strings.HasPrefix(k, pfx) {
+					return sv{Val: Val{t: e.st.get(u, k), typ: u.argKeyType[k]}}
+				}
+			}
+			sfail("lastarg: no recorded argument %s of %s (is it called in this function?)", ii.Val, id.Name)
+		}
+	}
 	if n.Fun == "bhas" {
 		// bhas(b, x): x is an element of the set represented by the roaring bitmap b (ghost view)
 		argn(2)
